@@ -18,6 +18,7 @@ use crate::reference::Val;
 use crate::{ast, gen, macros, parse};
 use antlr4rust::common_token_stream::CommonTokenStream;
 use antlr4rust::error_listener::ErrorListener;
+use antlr4rust::int_stream::IntStream;
 use antlr4rust::errors::ANTLRError;
 use antlr4rust::parser::ParserNodeType;
 use antlr4rust::parser_rule_context::ParserRuleContext;
@@ -190,7 +191,16 @@ impl Parser {
         // todo! might want to avoid this cloning here...
         self.helper.source_info.source = source.into();
 
-        let mut prsr = gen::CELParser::new(CommonTokenStream::new(lexer));
+        let mut tokens = CommonTokenStream::new(lexer);
+        // The runtime's token stream starts on the first token whatever its channel, so leading
+        // whitespace or a leading comment would reach the parser as an unexpected token.
+        while matches!(
+            tokens.la(1),
+            gen::cellexer::WHITESPACE | gen::cellexer::COMMENT
+        ) {
+            tokens.consume();
+        }
+        let mut prsr = gen::CELParser::new(tokens);
         prsr.remove_error_listeners();
         prsr.add_error_listener(Box::new(ParserErrorListener {
             parse_errors: parse_errors.clone(),
